@@ -194,6 +194,28 @@ func ResidueR6() *G {
 	return g
 }
 
+// ResidueReconfigured is one ResidueGroup object that is configured twice through the public API: first with the
+// parameters of the shipped QR512 group (and used: scalars and points are created), then re-parametrised with the
+// cofactor-6 parameters of ResidueR6. Everything it hands out afterwards must belong to the second parameter set.
+func ResidueReconfigured() *G {
+	rg := new(p256.ResidueGroup)
+	qs := p256.NewBlakeSHA256QR512()
+	rg.SetParams(qs.P, qs.Q, qs.R, qs.G)
+	_ = rg.Scalar().Pick(Stream("x"))
+	_ = rg.Point().Pick(Stream("y"))
+	_ = rg.Scalar().SetInt64(-1)
+	_, _ = rg.Scalar().One().MarshalBinary()
+	P, _ := new(big.Int).SetString("54d1822a8b597b3b537790d3399336d8f7b7b4adf", 16)
+	Q, _ := new(big.Int).SetString("e22eb0717399489e33e9823344333ced3f3f3725", 16)
+	rg.SetParams(P, Q, big.NewInt(6), big.NewInt(0x40))
+	g := &G{Name: "residue-reconfigured", Grp: rg, PanicsSeen: map[string]string{}}
+	g.Q = new(big.Int).Set(Q)
+	g.probe()
+	g.NullEnc, g.GenEnc = Enc(g.Point().Null()), Enc(g.Gen())
+	g.ZeroEnc, g.OneEnc = Enc(g.Scalar().Zero()), Enc(g.Scalar().One())
+	return g
+}
+
 // ResiduePQ returns the modulus and subgroup order of a residue group instance (nil, nil for other groups).
 func ResiduePQ(g *G) (P, Q *big.Int) {
 	switch v := g.Grp.(type) {
